@@ -20,7 +20,8 @@ def configs(tier):
           Config(levels=2, ndisks=3, contents=["c0/content", "d1/.content"], splits={0: 2, 1: 2}, parity_limit=6144),
           Config(levels=3, z=True, ndisks=3, hashkind="spooky2", hashsize=8),
           Config(levels=6, ndisks=2),
-          Config(levels=2, ndisks=3, tag="hole")]
+          Config(levels=2, ndisks=3, tag="hole"),
+          Config(levels=2, ndisks=2, tag="rehash")]
     if tier == "thorough":
         cs += [Config(levels=3, ndisks=4, blocksize=2), Config(levels=4, ndisks=3, hashkind="spooky2"),
                Config(levels=5, ndisks=2, contents=["c0/content", "c1/content", "d2/sub/.content"]),
@@ -41,6 +42,9 @@ def init_ops(cfg):
     if cfg.ndisks >= 4:
         ops += [("write", "d4", "x/y/z", 4096, 0)]
     ops.append(("cmd", "sync"))
+    if cfg.tag == "rehash":
+        # a hash migration is scheduled and stays in progress during the history
+        ops += [("cmd", "rehash")]
     if cfg.tag == "hole":
         # remove the middle disk the way a user does: empty it, sync -E, drop it from the configuration
         ops += [("emptydisk", "d2"), ("cmd", "sync", "-E"), ("dropdisk", "d2"), ("write", "d3", "late", 2500, 0),
